@@ -719,6 +719,16 @@ class Exec(ExprMixin, CallMixin):
                     self.havoc_value(x, f"{base}.{k}", depth + 1)
                 elif isinstance(x, (VInt, VBool, VStr, VOpt, VNode, VAny, VOpaque, VTuple)):
                     v.fields[k] = _type_of_value(x).fresh(f"{base}.{k}")
+                elif isinstance(x, (VNone, VConst)):
+                    # a field currently holding None / a constant: its new value has the declared type, if any
+                    fty = v.ty.fields.get(k) if isinstance(v.ty, Rec) else None
+                    if fty is not None:
+                        v.fields[k] = fty.fresh(f"{base}.{k}")
+                    elif isinstance(x, VNone) or not isinstance(x.py, (type(None),)) and not callable(getattr(x, "py", None)):
+                        if isinstance(x, VNone) or isinstance(x.py, (int, str, bool, float, tuple, frozenset, set, list, dict)):
+                            raise Unsupported(f"havoc of field {base}.{k} holding {x}: declare its type in the contract's record type")
+        elif isinstance(v, VRec):
+            raise Unsupported(f"havoc of record {base} nested deeper than 3 levels")
 
     # ------------------------------------------------------------------ spec evaluation helpers
     def _bind_spec_args(self, contract, fn_node, fr, extra):
